@@ -223,7 +223,8 @@ let do_msg tref vs =
           let rt = (match e with None -> string_of_val m | Some (f, c) -> "err:" ^ string_of_z f ^ ":" ^ string_of_ecls c) in
           let rd = (match mx_ref_decode s idx b zero with Some m -> string_of_val m | None -> "reject") in
           (hex_of_bytes b, rt, rd)) in
-    String.concat "\t" ["pico=" ^ pico_s; "ref=" ^ hex_of_bytes refb; "rt=" ^ rt_s; "refdec=" ^ refdec_s; "norm=" ^ string_of_val nv]
+    let wf = if mx_msg_ok progs idx v then "1" else "0" in
+    String.concat "\t" ["pico=" ^ pico_s; "ref=" ^ hex_of_bytes refb; "rt=" ^ rt_s; "refdec=" ^ refdec_s; "norm=" ^ string_of_val nv; "wfmsg=" ^ wf]
 
 (* dec: typeref gotype hexdata ... -> st=<ok|err:f:cls> val=<..> ref=<val|reject> *)
 let do_dec tref hx =
